@@ -7,7 +7,7 @@ use ddnnife::Ddnnf;
 
 const COMMANDS: &[&str] = &["count", "sat", "core", "enum", "random", "atomic", "atomic-cross", "t-wise", "clause-update", "undo-update", "save-ddnnf", "save-cnf", "exit", "bogus"];
 const KEYWORDS: &[&str] = &["a", "assumptions", "v", "variables", "l", "limit", "s", "seed", "p", "path", "f", "fitness", "t", "total-features", "add", "rmv"];
-const VALUES: &[&str] = &["1", "-2", "3", "0", "9", "-2147483648", "2147483647", "99999999999", "1..3", "2..", "-1..1", "3..1", "..5", "1.5", "-", "--1", "abc", "1e3", "-0", "+1", "1..99999999999", "-2147483648..2147483647", "5..5", "0.5", "1..3"];
+const VALUES: &[&str] = &["1", "-2", "3", "0", "9", "-2147483648", "2147483647", "99999999999", "1..3", "2..", "-1..1", "3..1", "..5", "1.5", "-", "--1", "abc", "1e3", "-0", "+1", "1..99999999999", "-2147483648..2147483647", "5..5", "0.5", "1..3", "-9..-1", "-9..2", "-9..", "-3..9"];
 
 fn is_err(s: &str) -> bool { let b = s.as_bytes(); b.len() >= 3 && b[0] == b'E' && (b'1'..=b'6').contains(&b[1]) && b[2] == b' ' }
 
@@ -25,10 +25,12 @@ fn resource_heavy(toks: &[String]) -> bool {
 /// an independent reading of the well-formed subset `cmd [a ints] [v ints]` (plain ints and ranges) → expected answer
 fn simple_expected(tt: &TT, toks: &[String]) -> Option<String> {
     let n = tt.n as i64;
+    if toks.is_empty() { return None; }
     let cmd = toks[0].as_str();
     if !matches!(cmd, "count" | "sat" | "core") { return None; }
     let mut a: Vec<i32> = Vec::new(); let mut v: Vec<i32> = Vec::new();
     let mut i = 1; let mut seen = std::collections::HashSet::new();
+    let mut out_of_range = false;
     while i < toks.len() {
         let kw = toks[i].as_str();
         let target = match kw { "a" | "assumptions" => 0, "v" | "variables" => 1, _ => return None };
@@ -37,16 +39,19 @@ fn simple_expected(tt: &TT, toks: &[String]) -> Option<String> {
         let mut got = Vec::new();
         while i < toks.len() && !toks[i].chars().any(|c| c.is_alphabetic()) {
             let t = &toks[i];
-            if let Ok(x) = t.parse::<i64>() { if x == 0 || x.abs() > n { return None; } got.push(x as i32); }
+            if let Ok(x) = t.parse::<i64>() { if x == 0 { return None; } if x.abs() > n { out_of_range = true; } else { got.push(x as i32); } }
             else if let Some((l, r)) = t.split_once("..") {
                 let lo: i64 = l.parse().ok()?; let hi: i64 = if r.is_empty() { n } else { r.parse().ok()? };
-                for x in lo..=hi { if x == 0 { continue; } if x.abs() > n { return None; } got.push(x as i32); }
+                if lo.abs() > 1000 || hi.abs() > 1000 { return None; }
+                for x in lo..=hi { if x == 0 { continue; } if x.abs() > n { out_of_range = true; } else { got.push(x as i32); } }
             } else { return None; }
             i += 1;
         }
-        if got.is_empty() { return None; }
+        if got.is_empty() && !out_of_range { return None; }
         if target == 0 { a = got } else { v = got }
     }
+    // a literal outside -n..n must be rejected with the boundary error
+    if out_of_range { return Some("E3!".to_string()); }
     if cmd == "core" {
         // per variable: the literal is reported iff every model containing the assumptions contains it
         // (vacuously all of them when no model contains the assumptions)
@@ -77,44 +82,63 @@ fn run_line(out: &mut Out, s: &mut Session, line: &str, save_dir: &str) {
         Err(e) => {
             out.fail("stream-panic", &s.file.text(), &line, &format!("panic: {e}"), "a result or an error E1..E6");
             // the instance may be in an arbitrary state after a panic: start over (the driver follows via a fresh circuit block)
-            if s.cnf { s.d = load_cnf_session(&s.cnf_text, save_dir); s.tt = s.file.tt(); s.export = export_nodes(&s.d); }
+            if s.cnf {
+                s.d = load_cnf_session(&s.cnf_text, save_dir); s.tt = s.file.tt(); s.export = export_nodes(&s.d);
+                let (n0, c0) = crate::refcomp::parse_cnf(&saved_cnf(&mut s.d, save_dir));
+                out.circuit(&s.export, &circuit_line(&s.d));
+                out.query("ccinit", &fmt_state(n0, &c0), "ok");
+            }
             else { s.d = load(s.file).unwrap(); out.circuit(&s.export, &circuit_line(&s.d)); }
         }
         Ok(r) => {
             if r.contains('\n') && !toks.first().map(|c| c == "t-wise").unwrap_or(false) { out.fail("multi-line-reply", &s.file.text(), &line, &r, "a one-line reply"); }
             if is_err(&r) {
                 out.count(&format!("err_{}", &r[..2]), 1);
+                if simple_expected(&s.tt, &toks).as_deref() == Some("E3!") { out.count("oracle_checked_out_of_range", 1); if !r.starts_with("E3 ") { out.fail("stream-answer", &s.file.text(), &line, &r, "E3 error: not all parameters are within the boundary"); } }
                 // a rejected line leaves the loaded model unchanged
                 if s.d.number_of_variables != before_vars || export_nodes(&s.d) != s.export { out.fail("rejected-line-changed-model", &s.file.text(), &line, "model changed", "model unchanged"); }
                 if s.cnf { let now = saved_cnf(&mut s.d, save_dir); if now != before_cnf { out.fail("rejected-line-changed-clauses", &s.file.text(), &line, &now, &before_cnf); } }
             } else {
                 out.count("ok_replies", 1);
-                if let Some(want) = simple_expected(&s.tt, &toks) { out.count("oracle_checked", 1); if want != r { out.fail("stream-answer", &s.file.text(), &line, &r, &want); } }
+                if simple_expected(&s.tt, &toks).as_deref() == Some("E3!") { out.fail("stream-answer", &s.file.text(), &line, &r, "E3 error: not all parameters are within the boundary"); }
+                if let Some(want) = simple_expected(&s.tt, &toks) { if want != "E3!" { out.count("oracle_checked", 1); if want != r { out.fail("stream-answer", &s.file.text(), &line, &r, &want); } } }
             }
             if r.starts_with('E') && !is_err(&r) && toks.first().map(|c| c != "exit").unwrap_or(true) && r.len() > 1 && r.as_bytes()[1].is_ascii_digit() {
                 out.fail("undocumented-error-code", &s.file.text(), &line, &r, "E1..E6");
             }
+            let first_line = r.lines().next().unwrap_or("");
+            let reply_for_driver = if toks.first().map(|c| c == "t-wise").unwrap_or(false) && !is_err(&r) { "TWISE".to_string() } else { first_line.split_whitespace().collect::<Vec<_>>().join(" ") };
             if s.cnf {
+                // the Lean handler with the clause cache: same reply, same stored clause set afterwards
+                let text = saved_cnf(&mut s.d, save_dir);
+                let (n, cls) = crate::refcomp::parse_cnf(&text);
+                out.query("msgc", &format!("{} ||| {}", reply_for_driver, line), &format!("agree {}", fmt_state(n, &cls)));
                 // an accepted clause-update / undo-update changes the model: the oracle follows the stored CNF (C12 decides its exactness)
                 if !is_err(&r) && toks.first().map(|c| c == "clause-update" || c == "undo-update").unwrap_or(false) {
-                    let text = saved_cnf(&mut s.d, save_dir);
-                    let (n, cls) = crate::refcomp::parse_cnf(&text);
                     s.tt = crate::refcomp::cnf_tt(n, &cls);
                     s.export = export_nodes(&s.d);
                     out.count("cnf_accepted_updates", 1);
                     if s.tt.count() == 0 { // never leave the session on an unsatisfiable model
                         s.d = load_cnf_session(&s.cnf_text, save_dir); s.tt = s.file.tt(); s.export = export_nodes(&s.d);
+                        let (n0, c0) = crate::refcomp::parse_cnf(&saved_cnf(&mut s.d, save_dir));
+                        out.circuit(&s.export, &circuit_line(&s.d));
+                        out.query("ccinit", &fmt_state(n0, &c0), "ok");
+                    } else {
+                        out.circuit(&s.export, &circuit_line(&s.d));
                     }
                 }
                 return;
             }
-            let first_line = r.lines().next().unwrap_or("");
-            let reply_for_driver = if toks.first().map(|c| c == "t-wise").unwrap_or(false) && !is_err(&r) { "TWISE".to_string() } else { first_line.split_whitespace().collect::<Vec<_>>().join(" ") };
             out.query("msg", &format!("{} ||| {}", reply_for_driver, line), "agree");
         }
     }
 }
 
+/// `n | c1 / c2 ..` with the clauses in BTreeSet order (the format of the Lean driver)
+fn fmt_state(n: u32, cls: &[crate::refcomp::Clause]) -> String {
+    let set: std::collections::BTreeSet<crate::refcomp::Clause> = cls.iter().cloned().collect();
+    format!("{} | {}", n, set.iter().map(|c| c.iter().map(|l| l.to_string()).collect::<Vec<_>>().join(" ")).collect::<Vec<_>>().join(" / ")).trim_end().to_string()
+}
 fn load_cnf_session(text: &str, dir: &str) -> Ddnnf {
     let p = format!("{dir}/session.cnf");
     std::fs::write(&p, text).unwrap();
@@ -255,6 +279,11 @@ pub fn c13(a: &Args) {
             let Ok(d) = guarded(|| load_cnf_session(&text, &save_dir)) else { out.fail("cnf-load-panic", &text, "load", "panic", "a model"); continue };
             let export = export_nodes(&d);
             let mut s = Session { d, file: &file, tt: crate::refcomp::cnf_tt(n, &cls), export, cnf: true, cnf_text: text.clone() };
+            {
+                let (n0, c0) = crate::refcomp::parse_cnf(&saved_cnf(&mut s.d, &save_dir));
+                out.circuit(&s.export, &circuit_line(&s.d));
+                out.query("ccinit", &fmt_state(n0, &c0), "ok");
+            }
             drive(&mut out, &mut rng, &mut s, a.thorough(), &save_dir);
             // clause commands with plausible arguments
             for _ in 0..(if a.thorough() { 1500 } else { 400 }) {
